@@ -102,6 +102,13 @@ pub fn gen_c17(ctx: &mut Ctx) {
         ctx.op("hll.rebuild 1 3".into());
         ctx.op("hll.regs 3".into());
         ctx.op("hll.count 3".into());
+        // `==`: the reconstruction and the permuted replay are equal sketches, a sketch of another
+        // precision or with one more register set is not
+        ctx.op("hll.eq 1 3".into());
+        ctx.op("hll.eq 1 2".into());
+        ctx.op("hll.eq 3 2".into());
+        ctx.op("hll.eq 1 8".into());
+        ctx.op("hll.eq 1 9".into());
         if b <= 8 {
             // explicit register vector, and wrong shapes must be rejected
             let regs = ctx.op("hll.regs 1".into());
@@ -124,12 +131,33 @@ pub fn gen_c17(ctx: &mut Ctx) {
             ctx.op("hll.count 2".into());
         }
         ctx.op("hll.regs 2".into());
-        // clone_from between sketches of different precision, then both keep evolving
+        // a sketch that received its content only through merge is as good as any other: as the
+        // `other` of a further merge, for is_empty and for `==`
+        ctx.op(format!("hll.new 11 {}", b));
+        ctx.op("hll.merge 11 1".into());
+        ctx.op("hll.empty 11".into());
+        ctx.op("hll.eq 11 1".into());
+        ctx.op(format!("hll.new 12 {}", b));
+        ctx.op("hll.merge 12 11".into());
+        ctx.op("hll.regs 12".into());
+        ctx.op("hll.count 12".into());
+        ctx.op("hll.eq 12 1".into());
+        ctx.op("hll.clear 11".into());
+        ctx.op("hll.merge 11 12".into());
+        ctx.op("hll.merge 12 11".into());
+        ctx.op("hll.regs 11".into());
+        ctx.op("hll.empty 11".into());
+        // clone_from between sketches of different precision and hasher, then both keep evolving
         let b2 = if b == 18 { 4 } else if ctx.rng.chance(1, 2) { b + 1 } else { 4 + (b + 3) % 15 };
+        let bh2 = ctx.rand_hasher();
+        ctx.hasher(bh2);
         ctx.op(format!("hll.new 10 {}", b2));
+        ctx.hasher(bh);
         ctx.op(format!("hll.addh 10 {}", ctx.rng.clone().next()));
         ctx.op("hll.count 10".into());
+        ctx.op("hll.eq 10 1".into());
         ctx.op("hll.clonefrom 10 1".into());
+        ctx.op("hll.eq 10 1".into());
         ctx.op("hll.regs 10".into());
         ctx.op("hll.count 10".into());
         for _ in 0..6 {
@@ -137,8 +165,19 @@ pub fn gen_c17(ctx: &mut Ctx) {
             ctx.op(format!("hll.addh 10 {}", v));
             ctx.op(format!("hll.addh 1 {}", v));
         }
+        // keys hashed by the sketch's own (copied) hasher: re-adding known keys changes nothing
+        ctx.op("hll.regs 10".into());
+        for (hashed, v) in adds.iter().filter(|x| !x.0).take(8) {
+            let _ = hashed;
+            ctx.op(format!("hll.add 10 {}", v));
+            ctx.op(format!("hll.add 1 {}", v));
+        }
         ctx.op("hll.regs 10".into());
         ctx.op("hll.regs 1".into());
+        ctx.op("hll.eq 1 10".into());
+        ctx.op(format!("hll.addh 10 {}", (1u64 << 63) | 1));
+        ctx.op(format!("hll.addh 10 {}", (1u64 << b) | 2));
+        ctx.op("hll.eq 1 10".into());
         ctx.op("hll.count 10".into());
         ctx.op("hll.count 1".into());
         if ctx.rng.chance(1, 4) {
@@ -161,12 +200,33 @@ fn op_hash(bh: &ScriptBH, t: &[&str]) -> u64 {
 
 /// C17's own statement, evaluated on the trace: registers are the per-register maximum over the
 /// *set* of added hashes of the 1-based position of the first set bit among the upper 64-b bits.
+/// registers prescribed by C17 for precision `b` and a set of added hashes
+fn regs_of(b: u64, s: &BTreeSet<u64>) -> Vec<u8> {
+    let m = 1usize << b;
+    let mut regs = vec![0u8; m];
+    for h in s {
+        let j = (h & ((1u64 << b) - 1)) as usize;
+        let mut rank = 64 - b + 1;
+        for (pos, bit) in (b..64).rev().enumerate() {
+            if (h >> bit) & 1 == 1 {
+                rank = pos as u64 + 1;
+                break;
+            }
+        }
+        if rank as u8 > regs[j] {
+            regs[j] = rank as u8;
+        }
+    }
+    regs
+}
+
 pub fn oracle_c17(ops: &[String], ans: &[String]) -> Vec<(usize, String)> {
     let mut fails = vec![];
     let mut bh = ScriptBH::xor();
     let mut sets: HashMap<u64, (u64, BTreeSet<u64>)> = HashMap::new();
     let mut regs_seen: HashMap<u64, String> = HashMap::new();
     let mut counts: HashMap<(u64, Vec<u64>), String> = HashMap::new();
+    let mut hashers: HashMap<u64, (u64, u64, u32, u64)> = HashMap::new();
     for (i, (o, a)) in ops.iter().zip(ans.iter()).enumerate() {
         let t: Vec<&str> = o.split_whitespace().collect();
         match t[0] {
@@ -186,6 +246,7 @@ pub fn oracle_c17(ops: &[String], ans: &[String]) -> Vec<(usize, String)> {
                 }
                 if a == "ok" {
                     sets.insert(t[1].parse().unwrap(), (b, BTreeSet::new()));
+                    hashers.insert(t[1].parse().unwrap(), (bh.mul, bh.add, bh.sh, bh.seed));
                 }
             }
             "hll.add" | "hll.addh" => {
@@ -227,6 +288,34 @@ pub fn oracle_c17(ops: &[String], ans: &[String]) -> Vec<(usize, String)> {
                         sets.remove(&id2);
                     }
                 }
+                match hashers.get(&id).cloned() {
+                    Some(x) => {
+                        hashers.insert(id2, x);
+                    }
+                    None => {
+                        hashers.remove(&id2);
+                    }
+                }
+            }
+            "hll.empty" => {
+                let id: u64 = t[1].parse().unwrap();
+                if let Some((_, s)) = sets.get(&id) {
+                    // a hash whose rank is recorded makes some register non-zero
+                    if a != if s.is_empty() { "true" } else { "false" } {
+                        fails.push((i, format!("is_empty() answered {} for a sketch that has received {} distinct hashes", a, s.len())));
+                    }
+                }
+            }
+            "hll.eq" => {
+                // `==`: same precision, same registers, same hasher
+                let id: u64 = t[1].parse().unwrap();
+                let id2: u64 = t[2].parse().unwrap();
+                if let (Some((b1, s1)), Some((b2, s2)), Some(h1), Some(h2)) = (sets.get(&id), sets.get(&id2), hashers.get(&id), hashers.get(&id2)) {
+                    let want = b1 == b2 && h1 == h2 && regs_of(*b1, s1) == regs_of(*b2, s2);
+                    if a != if want { "true" } else { "false" } {
+                        fails.push((i, format!("`==` answered {} for sketches that are {}equal (b={}/{})", a, if want { "" } else { "not " }, b1, b2)));
+                    }
+                }
             }
             "hll.count" => {
                 // count() depends only on the registers, hence only on (b, set of hashes added)
@@ -251,6 +340,9 @@ pub fn oracle_c17(ops: &[String], ans: &[String]) -> Vec<(usize, String)> {
                 if let Some(x) = sets.get(&id).cloned() {
                     sets.insert(id2, x);
                 }
+                if let Some(x) = hashers.get(&id).cloned() {
+                    hashers.insert(id2, x);
+                }
                 if a != "ok" {
                     fails.push((i, "reconstruction from own registers rejected".into()));
                 }
@@ -265,22 +357,7 @@ pub fn oracle_c17(ops: &[String], ans: &[String]) -> Vec<(usize, String)> {
             "hll.regs" => {
                 let id: u64 = t[1].parse().unwrap();
                 if let Some((b, s)) = sets.get(&id) {
-                    let m = 1usize << b;
-                    let mut regs = vec![0u8; m];
-                    for h in s {
-                        let j = (h & ((1u64 << b) - 1)) as usize;
-                        // first set bit among bits 63..b, 1-based from the top; 64-b+1 if none
-                        let mut rank = 64 - b + 1;
-                        for (pos, bit) in (*b..64).rev().enumerate() {
-                            if (h >> bit) & 1 == 1 {
-                                rank = pos as u64 + 1;
-                                break;
-                            }
-                        }
-                        if rank as u8 > regs[j] {
-                            regs[j] = rank as u8;
-                        }
-                    }
+                    let regs = regs_of(*b, s);
                     let want = format!("{} {}", b, crate::exec::regs_repr(&regs));
                     if &want != a {
                         fails.push((i, format!("registers differ from max-rank definition (b={})", b)));
